@@ -140,7 +140,7 @@ VARIANTS = [None, {'a': 'b', 'b': 'a'}, {'a': 'x2', 'b': 'x', 'c': 'a2', 'd': 'v
 
 def check(case, ctx):
     t0 = T.totuple(case['t'])
-    for ren in VARIANTS:
+    for ren in (VARIANTS if ctx.sub != 'narrow' else VARIANTS[::3]):
         t = t0 if ren is None else ref_apply(t0, ren)
         if ren is not None and t == t0:
             continue
